@@ -280,3 +280,22 @@ PROPS["C17"] = {
         {"test": "^TestGCCPacers$", "checks": 250, "shards": 6, "timeout": 1500},
     ],
 }
+
+PROPS["C16"] = {
+    "pkg": "c16",
+    "technique": "property-based testing of invariants at quiescence (bounds, getter/callback/pacer agreement, finiteness) over generated configurations and feedback histories, real-time paced",
+    "level_text": "Each case builds a SendSideBWE with generated (min <= initial <= max) and pacer, then runs rounds of real-time spaced sends and TWCC / RFC 8888 feedback with "
+                  "generated arrival patterns (zero, equal, decreasing arrivals, huge gaps, 0..100 % loss, duplicated, empty); after every feedback, at quiescence (empty-feedback "
+                  "sentinel + callback goroutines finished) the target, every callback value and every rate given to the pacer must lie within [min, max] and agree. Exploration.",
+    "level_note": "trusts: wall-clock pacing of sends (the estimator reads time.Now); 'never blocks' is decided as 'returns within 20 s'; the change callback is installed before traffic; "
+                  "a leaky-bucket pacer that does not drain within 5 s makes the case inconclusive",
+    "assumptions": ["OnTargetBitrateChange is set before traffic", "feedback is well-formed"],
+    "quick": [
+        {"test": "^TestRegress", "timeout": 120},
+        {"test": "^TestTargetBitrateBounded$", "checks": 25, "shards": 8, "timeout": 600},
+    ],
+    "thorough": [
+        {"test": "^TestRegress", "timeout": 120},
+        {"test": "^TestTargetBitrateBounded$", "checks": 600, "shards": 15, "timeout": 1800},
+    ],
+}
